@@ -30,7 +30,7 @@ RULE = (
 ASSUMPTIONS = ["generator states are copied onto the reloaded object by the harness, as the property allows"]
 TIMEOUT = {"quick": 400, "thorough": 2400}
 REQUIRED = {"reloads": 90, "continuations_compared": 90, "save_point:0": 8, "save_point:straddles_adaptation": 25,
-            "cases:bounded": 25, "cases:tempered": 15, "cases:matrix_mass": 3, "resaves": 80, "plot_calls_compared": 30}
+            "cases:bounded": 25, "cases:tempered": 15, "cases:matrix_mass": 3, "resaves": 80, "plot_calls_compared": 30, "cases:many_parameters": 8}
 
 PARAM_FIELDS = ["samples", "sigma", "avg", "var", "num", "sigma_values", "sigma_checks", "try_count", "last_update", "target_rate",
                 "max_tries", "chk_int", "growth_factor", "adjust_rate", "non_negative", "bounded", "upper", "lower", "width"]
@@ -139,6 +139,9 @@ def run_job(job, rec):
     for c in range(job["n_cases"]):
         kind = kinds[(c + job["j"]) % 5]
         d = int(rng.choice([1, 2, 3, 4]))
+        if kind in ("gibbs", "metropolis", "pca") and rng.random() < 0.25:
+            d = int(rng.choice([10, 11, 12, 23]))   # enough parameters for their file keys to have two digits
+            rec.count("cases:many_parameters")
         A = rng.normal(size=(d, d))
         target = mc.GaussTarget(rng.normal(size=d) * 0.3, A @ A.T / d + 0.5 * np.eye(d))
         T = float(rng.choice([1.0, 3.0])) if kind != "ensemble" else 1.0
